@@ -216,7 +216,12 @@ pub fn pdu() -> impl Strategy<Value = Pdu> {
             prop::option::of(prop_oneof![Just(String::new()), (0usize..3, 0u8..5).prop_map(|(a, b)| user(a, b)), "[a-z]{1,4}"]), // state_key
             (ids(), ids(), 0i64..100, 0i64..2_000_000_000_000i64),
             prop::collection::vec(((0usize..TOP_KEYS.len()).prop_map(|i| TOP_KEYS[i].to_owned()), cjson::value(2)), 0..5),
-            prop::option::of(cjson::value(2)), // unsigned
+            prop::option::of(prop_oneof![
+                3 => cjson::value(2),
+                // what a homeserver adds for clients: untrusted data that must influence neither hashes nor redaction
+                1 => Just(obj([("age", V::Int(1234)), ("redacted_because", obj([("type", s("m.room.redaction")), ("sender", s("@u1:a.example")), ("content", obj([("reason", s("spam"))]))]))])),
+                1 => Just(obj([("redacted_because", s("not even an object")), ("transaction_id", s("t1"))])),
+            ]), // unsigned
             any::<bool>(),
         )
             .prop_map(|(version, ty, content, sender, (eid_srv, eid_local), state_key, (prev, auth, depth, ts), extras, unsigned, with_event_id)| {
